@@ -20,6 +20,7 @@ def construct(c):
 def main(tier, seed, t0):
     cases = RJ.c12_cases(tier)
     cases.append(RJ.big_enum_case(65535, PROP, 'reject'))
+    cases += RJ.mixed_c12(120 if tier == 'quick' else 1200, seed)
     if tier == 'thorough':
         cases.append(RJ.big_enum_case(65536, PROP, 'reject'))
         cases.append(RJ.big_enum_case(70000, PROP, 'reject'))
